@@ -152,7 +152,7 @@ func (w *world) obsDetachedRows() []interface{} {
 	return out
 }
 
-// obsText: per cell [where..., text, empty, item-is-the-original] (C01).
+// obsText: per cell [where..., text, empty, item-is-the-original, Height(), TerminalCellWidth(), len(Lines())] (C01, C18).
 func (w *world) obsText() []interface{} {
 	var out []interface{}
 	for ti, t := range w.tables {
@@ -163,7 +163,7 @@ func (w *world) obsText() []interface{} {
 			if j < len(w.hdrItems[ti]) && sameItem(c.Item(), w.hdrItems[ti][j]) {
 				same = 1
 			}
-			out = append(out, []interface{}{"h", ti + 1, j + 1, c.String(), b2i(c.Empty()), same})
+			out = append(out, []interface{}{"h", ti + 1, j + 1, c.String(), b2i(c.Empty()), same, c.Height(), c.TerminalCellWidth(), len(c.Lines())})
 		}
 	}
 	for ri, r := range w.rows {
@@ -174,7 +174,7 @@ func (w *world) obsText() []interface{} {
 			if j < len(w.rowItems[ri]) && sameItem(c.Item(), w.rowItems[ri][j]) {
 				same = 1
 			}
-			out = append(out, []interface{}{"r", ri + 1, j + 1, c.String(), b2i(c.Empty()), same})
+			out = append(out, []interface{}{"r", ri + 1, j + 1, c.String(), b2i(c.Empty()), same, c.Height(), c.TerminalCellWidth(), len(c.Lines())})
 		}
 	}
 	return out
